@@ -981,8 +981,10 @@ class SimPool:
                 if id(o) not in known:
                     k.rng_objects.append(o)
         snap = k.snapshot_private(parent)
+        t_acc = 0.0
         for i in range(self.W):
-            delay = k.delay(parent, 'fork')
+            t_acc += k.delay(parent, 'fork')      # the parent forks its workers one after the other
+            delay = t_acc
             if self.shares_state:
                 w = k.spawn(self._make_worker(i), f't{i}', 'worker', parent.priv, start_delay=delay, image=parent.image)
             else:
